@@ -2,7 +2,7 @@
 use crate::ast;
 use crate::gen::*;
 use crate::util::*;
-use glass_easel_template_compiler::parse::tag::{ElementKind, Node, Value};
+use glass_easel_template_compiler::parse::tag::{ClassAttribute, ElementKind, Node, StyleAttribute, Value};
 use glass_easel_template_compiler::TmplGroup;
 
 fn between<'a>(s: &'a str, start: &str, end: &str) -> Option<&'a str> {
@@ -37,10 +37,22 @@ pub fn run_gen(tier: &str, seed: u64, out: &mut Out) {
         let mut extra_rng = Rng::new(seed.wrapping_add(i as u64));
         let mut extra = || extra_rng.chance(1, 12);
         let text = e.wxml(&mut extra);
-        for (kind, name) in [("attr", "a"), ("model", "mo"), ("attr", "bindx"), ("text", "")] {
+        // class / style / id / data-* / mark: (write_attribute_value, to_proc_gen_with_method); a third of the expressions
+        let setters: &[(&str, &str)] = if i % 3 == 0 { &[("class", ""), ("style", ""), ("id", ""), ("data", "myK"), ("mark", "k-1")] }
+            else if i % 3 == 1 { &[("change", "myProp"), ("ev", "tap"), ("evcatch", "tap"), ("evmut", "tap"), ("evcap", "tap"), ("evcapcatch", "tap")] } else { &[] };
+        for (kind, name) in [("attr", "a"), ("model", "mo"), ("attr", "bindx"), ("text", "")].iter().chain(setters.iter()).cloned() {
             let src = match kind {
                 "text" => format!("{{{{ {} }}}}", text),
                 "model" => format!("<v model:{}=\"{{{{ {} }}}}\"/>", name, text),
+                "class" | "style" | "id" => format!("<v {}=\"{{{{ {} }}}}\"/>", kind, text),
+                "data" => format!("<v data-my-k=\"{{{{ {} }}}}\"/>", text),
+                "mark" => format!("<v mark:{}=\"{{{{ {} }}}}\"/>", name, text),
+                "change" => format!("<v change:my-prop=\"{{{{ {} }}}}\"/>", text),
+                "ev" => format!("<v bind:{}=\"{{{{ {} }}}}\"/>", name, text),
+                "evcatch" => format!("<v catch:{}=\"{{{{ {} }}}}\"/>", name, text),
+                "evmut" => format!("<v mut-bind:{}=\"{{{{ {} }}}}\"/>", name, text),
+                "evcap" => format!("<v capture-bind:{}=\"{{{{ {} }}}}\"/>", name, text),
+                "evcapcatch" => format!("<v capture-catch:{}=\"{{{{ {} }}}}\"/>", name, text),
                 _ => format!("<v {}=\"{{{{ {} }}}}\"/>", name, text),
             };
             let mut g = TmplGroup::new();
@@ -51,10 +63,22 @@ pub fn run_gen(tier: &str, seed: u64, out: &mut Out) {
             let sx = match (kind, tree.content.get(0)) {
                 ("text", Some(Node::Text(Value::Dynamic { expression, .. }))) => Some(ast::expr(expression)),
                 (_, Some(Node::Element(el))) => match &el.kind {
-                    ElementKind::Normal { attributes, .. } => match attributes.get(0).and_then(|a| a.value.as_ref()) {
-                        Some(Value::Dynamic { expression, .. }) => Some(ast::expr(expression)),
-                        _ => None,
-                    },
+                    ElementKind::Normal { attributes, class, style, change_attributes, common, .. } => {
+                        let v = match kind {
+                            "class" => match class { ClassAttribute::String(_, v) => Some(v), _ => None },
+                            "style" => match style { StyleAttribute::String(_, v) => Some(v), _ => None },
+                            "id" => common.id.as_ref().map(|x| &x.1),
+                            "data" => common.data.get(0).and_then(|a| a.value.as_ref()),
+                            "mark" => common.marks.get(0).and_then(|a| a.value.as_ref()),
+                            "change" => change_attributes.get(0).and_then(|a| a.value.as_ref()),
+                            "ev" | "evcatch" | "evmut" | "evcap" | "evcapcatch" => common.event_bindings.get(0).and_then(|a| a.value.as_ref()),
+                            _ => attributes.get(0).and_then(|a| a.value.as_ref()),
+                        };
+                        match v {
+                            Some(Value::Dynamic { expression, .. }) => Some(ast::expr(expression)),
+                            _ => None,
+                        }
+                    }
                     _ => None,
                 },
                 _ => None,
